@@ -86,7 +86,24 @@ def clear_caches():
                 if callable(cc):
                     try: cc(); n += 1
                     except Exception: pass
+    # lazily built class-level tables (e.g. Array._largest_values): slots that were None the first time we looked are reset to None
+    global _LAZY_SLOTS
+    if _LAZY_SLOTS is None:
+        _LAZY_SLOTS = []
+        for name, mod in list(sys.modules.items()):
+            if not name.startswith('bitstring'): continue
+            for objname, obj in list(vars(mod).items()):
+                if isinstance(obj, type) and getattr(obj, '__module__', '').startswith('bitstring'):
+                    for a, v in list(vars(obj).items()):
+                        if v is None and not a.startswith('__'): _LAZY_SLOTS.append((obj, a))
+    else:
+        for obj, a in _LAZY_SLOTS:
+            try:
+                if getattr(obj, a) is not None: setattr(obj, a, None); n += 1
+            except Exception: pass
     return n
+
+_LAZY_SLOTS = None
 
 # --------------------------------------------------------------------------------------------
 # rendering values as Coq terms
